@@ -83,6 +83,25 @@ def classify(case):
     return nontrivial, cl
 
 
+def _fresh_result_reencoded(make, enc, want, bucket, detail):
+    """`make()` returns a fresh result (possibly a lazy view) that nothing has looked at yet. Changing its encoding (to plain text for encoded
+    input, to ACGTN for plain input over those letters) must give the same rows."""
+    import bionumpy as bnp
+    from bionumpy.encoded_array import change_encoding, BaseEncoding
+    from bionumpy.encodings.alphabet_encoding import ACGTnEncoding
+    if enc is not None:
+        got = [x.upper() for x in change_encoding(make(), BaseEncoding).tolist()]
+        how = "change_encoding(result, BaseEncoding)"
+    elif all(c in "ACGTN" for w_ in want for c in w_):
+        got = [x.upper() for x in bnp.as_encoded_array(make(), ACGTnEncoding).tolist()]
+        how = "as_encoded_array(result, ACGTnEncoding)"
+    else:
+        return None
+    if got != want:
+        return Failure(bucket + ":fresh-result-reencoded", dict(detail, how=how, expected=want, actual=got))
+    return None
+
+
 def check(case, stats=None):
     import numpy as np
     import bionumpy as bnp
@@ -104,6 +123,10 @@ def check(case, stats=None):
                 return [Failure("C14:oracles-disagree", {"table": want, "biopython": bio})]
             if got != want:
                 return [Failure(f"C14:reverse-complement:{case['enc']}", {"rows": rows, "expected": want, "actual": got})]
+            # a fresh result handed on before anything has looked at it: read back through another encoding
+            fail = _fresh_result_reencoded(lambda: bnp.sequence.get_reverse_complement(x), enc, want, f"C14:reverse-complement:{case['enc']}", {"rows": rows})
+            if fail:
+                return [fail]
             rr = bnp.sequence.get_reverse_complement(r)
             back = [s.upper() for s in rr.tolist()]
             if back != [s.upper() for s in rows]:
@@ -124,6 +147,9 @@ def check(case, stats=None):
             want = [(revcomp(seq[a:b]) if z == "-" else seq[a:b]).upper() for a, b, z in ivs]
             if got != want:
                 return [Failure("C14:strand-specific", {"sequence": seq, "intervals": ivs, "expected": want, "actual": got})]
+            fail = _fresh_result_reencoded(lambda: bnp.sequence.get_strand_specific_sequences(s, t), enc, want, "C14:strand-specific", {"sequence": seq, "intervals": ivs})
+            if fail:
+                return [fail]
         elif k == "genomic":
             from bionumpy.genomic_data.genomic_sequence import GenomicSequence
             seqs, ivs = case["seqs"], case["ivs"]
@@ -178,6 +204,12 @@ def check(case, stats=None):
                         stats.raised_allowed["translate-encoded-input:" + type(ex).__name__] += 1
                 if pe is not None and pe != want:
                     return [Failure("C14:translation-encoded-input", {"encoding": case["encoded"], "rows": rows, "expected": want, "actual": pe})]
+                # the reverse strand of encoded rows: reverse complement, back to plain text, translate (each result handed straight to the next call)
+                from bionumpy.encoded_array import change_encoding, BaseEncoding
+                want_rc = ["".join(CODON[revcomp(r_.upper())[i:i + 3]] for i in range(0, len(r_), 3)) for r_ in rows]
+                got_rc = bnp.sequence.translate_dna_to_protein(change_encoding(bnp.sequence.get_reverse_complement(xe), BaseEncoding)).tolist()
+                if got_rc != want_rc:
+                    return [Failure("C14:translation-of-reverse-strand-of-encoded-rows", {"encoding": case["encoded"], "rows": rows, "expected": want_rc, "actual": got_rc})]
             if case.get("lazy_entries") and all(rows):
                 # the same sequences as entries read lazily from a FASTQ file: two successive sequence operations on the lazily read table
                 import tempfile
